@@ -100,7 +100,7 @@ func fieldWrites(root *ssa.Function, owner, name string) []ssa.Instruction {
 
 func fieldWrites1(fn *ssa.Function, owner, name string) []ssa.Instruction {
 	var out []ssa.Instruction
-	for _, b := range fn.Blocks {
+	for _, b := range blocksDeep(fn) {
 		for _, in := range b.Instrs {
 			fa, ok := in.(*ssa.FieldAddr)
 			if !ok {
@@ -186,7 +186,7 @@ func runC14(c *Ctx) {
 		return false
 	}
 	nIdx := 0
-	for _, fn := range p.OwnFuncs {
+	for _, fn := range p.Subjects() {
 		if !inScope(fn, []string{"pkg/txpool"}) || strings.Contains(FuncKey(fn), "NewTransactionPool") || len(fn.Blocks) == 0 {
 			continue
 		}
@@ -451,11 +451,11 @@ func runC14(c *Ctx) {
 			mutatesIndex[field][g] = r
 			return r
 		}
-		for _, fn := range p.OwnFuncs {
+		for _, fn := range p.Subjects() {
 			if !inScope(fn, []string{"pkg/txpool"}) || len(fn.Blocks) == 0 || !IsProd(fn) {
 				continue
 			}
-			for _, b := range fn.Blocks {
+			for _, b := range blocksDeep(fn) {
 				for _, in := range b.Instrs {
 					lk, ok := in.(*ssa.Lookup)
 					if !ok {
